@@ -297,4 +297,90 @@ theorem returns_after_stop {c : Cfg} (hfx : c.fx = Fix.all) {conc0 : Nat} {s : S
   have hps := (inv_reach hfx hr).2.2.r0 hstop
   exact ⟨hps, no_hang hfx hr hq (fun h => hps h.1)⟩
 
+
+/-! ### witnesses: non-vacuity, and the unrepaired code -/
+
+theorem reach_of_runActs {c : Cfg} {conc0 : Nat} :
+    ∀ (acts : List Act) (s0 s : St), Reach c conc0 s0 → runActs c s0 acts = some s → Reach c conc0 s
+  | [], s0, s, h0, h => by simp [runActs] at h; exact h ▸ h0
+  | a :: as, s0, s, h0, h => by
+    simp only [runActs] at h
+    split at h
+    · rename_i s1 hs1
+      exact reach_of_runActs as s1 s (Reach.step a h0 hs1) h
+    · contradiction
+
+open Act in
+/-- one item, one task, one worker: a complete run (`M P P G P T0 P P G M`) -/
+def demoActs : List Act := [main, prod, prod, getw, prod, task 0 true, prod, prod, getw, main]
+def demoCfg : Cfg := ⟨1, 0, false, Fix.all⟩
+
+/-- non-vacuity of `returns_when_exhausted` / `exactly_once_without_stop`: the run exists, is quiescent,
+returned, and the log is exactly start 0, end 0 of item 0 -/
+example : ∃ s, runActs demoCfg (initSt 1) demoActs = some s ∧ quiescent s = true ∧ s.main = .returned ∧
+    s.log = [Ev.mk 0 0 false, Ev.mk 0 0 true] ∧ s.stopReq = false ∧ proj 0 s.log = pre 1 := by decide
+
+open Act in
+/-- non-vacuity of `error_surfaces`: the task raises, `process()` raises -/
+example : ∃ s, runActs demoCfg (initSt 1) [main, prod, prod, getw, task 0 false, main] = some s ∧
+    s.main = .raised ∧ 0 < s.failedItems := by decide
+
+open Act in
+/-- non-vacuity of `returns_after_stop` / `no_work_after_stop`: stop with the producer blocked behind a
+queued item (the schedule that hangs the unrepaired code, `stop_counterexample`): the repaired
+pipeline cancels the producer and returns; item 1 and 2 are never started -/
+example : ∃ s, runActs ⟨3, 0, false, Fix.all⟩ (initSt 1) [main, prod, prod, prod, getw, prod, stop, task 0 true, main, prod, main] = some s ∧
+    quiescent s = true ∧ s.main = .returned ∧ s.stopReq = true ∧ startsIn s.log = 1 ∧ s.prod = .cancelled := by
+  decide
+
+/-- a hang: nothing can move, nothing is outstanding, `process()` has not completed and the
+pipeline is not paused on purpose -/
+def Hung (s : St) : Prop :=
+  quiescent s = true ∧ mainDone s = false ∧ ¬ (s.pstate = .running ∧ s.conc = 0)
+
+instance (s : St) : Decidable (Hung s) := by unfold Hung; infer_instance
+
+open Act in
+/-- **Unrepaired code (DESIGN §7 #9).**  Without the producer cancellation, `stop()` while the producer
+is blocked in `put_item` behind a queued item hangs `process()`:
+3 items, 1 task, 1 worker, schedule `M P P S G P M`. -/
+theorem stop_counterexample :
+    ∃ s, runActs ⟨3, 0, false, { Fix.all with cancelProducer := false }⟩ (initSt 1)
+      [main, prod, prod, stop, getw, prod, main] = some s ∧ Hung s := by
+  decide
+
+open Act in
+/-- **Unrepaired code (DESIGN §7 #19).**  Without `stop()` setting `_unpaused_event`, concurrency set to 0
+while the last item is in flight hangs `process()` although the source is exhausted and every item
+finished: 1 item, schedule `M P P G C0 T0 M P`. -/
+theorem pause_counterexample :
+    ∃ s, runActs ⟨1, 0, false, { Fix.all with wakeOnStop := false }⟩ (initSt 1)
+      [main, prod, prod, getw, setConc 0, task 0 true, main, prod] = some s ∧ Hung s ∧
+      s.pstate = .stopping ∧ s.unfinished = 0 := by
+  decide
+
+open Act in
+/-- **Unrepaired code.**  With concurrency 0 before `process()` the first step of `process()` never
+yields (`while running: yield from event.wait()` with the event set). -/
+theorem pause_at_start_counterexample :
+    ∃ s, runActs ⟨1, 0, false, { Fix.all with pauseAtStart := false }⟩ (initSt 0) [main] = some s ∧
+      s.main = .spin := by
+  decide
+
+open Act in
+/-- **Unrepaired code.**  A `stop()` before the producer task's first step is forgotten
+(`Producer.process` sets `_running = True`): `get_item` is called after the stop. -/
+theorem stop_forgotten_counterexample :
+    ∃ s, runActs ⟨1, 0, false, { Fix.all with startGuard := false }⟩ (initSt 1) [main, stop, prod] = some s ∧
+      s.pstate = .stopping ∧ s.callsAtStop < s.srcCalls := by
+  decide
+
+open Act in
+/-- **Unrepaired code.**  A task that raises while the pipeline shuts down is dropped: `process()` returns. -/
+theorem error_swallowed_counterexample :
+    ∃ s, runActs ⟨1, 0, false, { Fix.all with reapOnShutdown := false }⟩ (initSt 2)
+      [main, prod, prod, prod, getw, stop, prod, getw, main, task 0 false, main] = some s ∧
+      s.main = .returned ∧ 0 < s.failedItems := by
+  decide
+
 end Wpull.Pipeline
